@@ -30,6 +30,10 @@ Bad == IF l > Len(Tr) \/ Tr[l].ev = "Init" THEN {} ELSE
                 (IF e.sameobj THEN {} ELSE {"LoadedObjectSerialisesTheSame"})
                 \cup (IF e.sameverdicts THEN {} ELSE {"SameVerdicts"})
              ELSE {})
+       \cup (IF e.ev = "LoadDict" /\ e.raised = "none" THEN
+                (IF e.dictintact THEN {} ELSE {"CallerDictionaryLeftAlone"})
+                \cup (IF e.reloadsame THEN {} ELSE {"SameDictionarySameResult"})
+             ELSE {})
        \cup (IF e.ev = "Neutral" /\ e.raised = "none" THEN
                 (IF e.neutral THEN {} ELSE {"UnknownNeutral"})
                 \cup (IF e.orderfree THEN {} ELSE {"OrderFree"})
